@@ -27,6 +27,8 @@ LESSON = {
     "C09c": "missed (2 expected runs) -> observational engine-G part of C09: before/after dumps on 3000 more runs incl. per-variable fields",
     "C12c": "missed -> objectives with an infeasible region penalised with -inf/+inf in the C12 profile",
     "C18c": "missed -> the earlier configuration shares max_cycles / population_size with the observed one",
+    "C10d": "missed: the pool model's wait() ignored its timeout (stub infidelity, surfaced as an AttributeError inside the stub) -> wait(timeout=0) is a non-blocking snapshot; exceptions raised by the simulator's own code are HARNESS-ERRORs, never library failures",
+    "C20d": "missed (only the table's shape was checked) -> row k of every column must hold trial k",
 }
 
 
